@@ -578,6 +578,34 @@ func (c *c15) textPart(F []float64, quick bool) (stop bool) {
 	rc := c.rc
 	vals := append(append([]float64{}, F...), c15Rand(map[bool]int{true: 150, false: 4000}[quick])...)
 	vals = append(vals, 1e-4, 9.999e-5, 1e-5, 1.5e-7, 123456.789, 1e15, 9999999999999998, 1e16, 1.2e16, 1e17, 1e21, 1e22, 5e-324, 2.2250738585072014e-308, 0.1+0.2, 100, 1e2, 1234567.0, 0.001, 1e100)
+	// every decimal-exponent boundary of the double range: the doubles nearest 10**k and their
+	// 4 neighbours on each side (thorough: 8), both signs - the text form changes its number of
+	// digits there, and at 1e-4 and 1e16 its notation
+	{
+		width := 4
+		if !quick {
+			width = 8
+		}
+		for k := -324; k <= 308; k++ {
+			p, err := strconv.ParseFloat("1e"+strconv.Itoa(k), 64)
+			if err != nil || p == 0 || math.IsInf(p, 0) {
+				continue
+			}
+			b := math.Float64bits(p)
+			for d := -width; d <= width; d++ {
+				nb := int64(b) + int64(d)
+				if nb <= 0 || nb >= 0x7ff0000000000000 {
+					continue
+				}
+				y := math.Float64frombits(uint64(nb))
+				vals = append(vals, y)
+				if quick && d != -1 && d != 0 && d != 1 {
+					continue
+				}
+				vals = append(vals, -y)
+			}
+		}
+	}
 	seen := map[uint64]bool{}
 	for _, x := range vals {
 		if rc.Expired() || rc.Done() {
